@@ -58,9 +58,57 @@ def gen_history(rng, maxlen, vary_dim=True):
     return h
 
 
+def alpha_with_bound(value, dof, max_ulps=4000):
+    """a significance whose upper-tail bound for `dof` is exactly the double `value` (None if the scan does not meet one)"""
+    from numpy import nextafter
+    from scipy.stats import chi2
+
+    centre = float(chi2.sf(value, dof))
+    if not 0 < centre < 1:
+        return None
+    up = down = centre
+    for _ in range(max_ulps):
+        for cand in (up, down):
+            if float(chi2.isf(cand, dof)) == value:
+                return float(cand)
+        up, down = float(nextafter(up, 1.0)), float(nextafter(down, 0.0))
+    return None
+
+
+def on_bound_case(rng):
+    """a history whose statistic is exact in binary64 (dyadic innovations, power-of-two diagonal covariances, dyadic delta) and a significance
+    whose bound IS that statistic at the last step: 'reaches the bound' includes equality, and only such a case can tell `<` from `<=`"""
+    kind = rng.choice(["standard", "sliding", "fading"])
+    h = []
+    for _ in range(rng.randint(1, 5)):
+        n = rng.randint(1, 4)
+        h.append({"nu": [Fraction(rng.randint(-8, 8), 2) for _ in range(n)],
+                  "S": [[Fraction(2) ** rng.randint(-2, 2) if i == j else Fraction(0) for j in range(n)] for i in range(n)]})
+    if all(x == 0 for x in h[-1]["nu"]):
+        h[-1]["nu"][0] = Fraction(3, 2)
+    c = {"kind": kind, "alpha": 0.05, "h": h, "scale": Fraction(2)}
+    if kind == "sliding":
+        c["w"] = rng.choice([1, 2, 3])
+    if kind == "fading":
+        c["delta"] = Fraction(rng.choice([4, 8, 12]), 16)
+    m, dof = documented(c)[-1]
+    if m <= 0 or Fraction(float(m)) != m:
+        return None
+    a = alpha_with_bound(float(m), float(dof))
+    if a is None:
+        return None
+    c["alpha"] = a
+    c["on_bound"] = True
+    return c
+
+
 def cases(run: Run):
     rng = run.rng
     out = [dec(c) for c in corpus(PID)]  # stored as JSON: rationals as strings
+    for _ in range(run.n(12, 60)):
+        c = on_bound_case(rng)
+        if c is not None:
+            out.append(c)
     for _ in range(run.n(150, 2500)):
         kind = rng.choice(["standard", "sliding", "fading"])
         # significances over the whole open interval: the usual ones, very strict ones (1 - alpha rounds to 1 below 1.1e-16) and lax ones
@@ -238,7 +286,14 @@ def oracle(run: Run, c, impl):
             break
         bound = float(chi2.isf(c["alpha"], float(dof)))
         margin = float(m) - bound
-        if abs(margin) <= 1e-7 * max(1.0, abs(bound)):
+        if met == float(m) == float(chi2.isf(alpha, idof)) and Fraction(met) == m:
+            # the statistic is exact and IS the bound for the (verified) arguments the detector tests with: it reaches the bound
+            run.count("on-the-bound")
+            if not (o["detected"] and o["detected_default"]):
+                fails.append((f"{c['kind']}:decision-on-bound", f"step {k}: the statistic {met} equals the bound chi2.isf({alpha}, {idof}) "
+                              f"but the detector said {o['detected']}/{o['detected_default']}: a statistic that reaches the bound is a detection"))
+                break
+        elif abs(margin) <= 1e-7 * max(1.0, abs(bound)):
             run.boundary_skips += 1
         else:
             want = margin >= 0
@@ -288,12 +343,13 @@ def run_cases(run: Run, cs):
 
 def search(run: Run):
     rng = run.rng
-    for _ in range(600):
+    for i in range(600):
         kind = rng.choice(["standard", "sliding", "fading"])
-        c = {"kind": kind, "alpha": rng.choice([0.05, 0.01, 0.3]), "h": gen_history(rng, 30), "scale": Fraction(rng.choice([9, 16, 40]), 8)}
-        if kind == "sliding":
+        c = on_bound_case(rng) if i % 4 == 0 else None
+        c = c or {"kind": kind, "alpha": rng.choice([0.05, 0.01, 0.3]), "h": gen_history(rng, 30), "scale": Fraction(rng.choice([9, 16, 40]), 8)}
+        if kind == "sliding" and "on_bound" not in c:
             c["w"] = rng.choice([1, 2, 3, 4, 6])
-        if kind == "fading":
+        if kind == "fading" and "on_bound" not in c:
             c["delta"] = Fraction(rng.choice([2, 8, 13]), 16)
         f = oracle(run, c, guarded(impl_run, c))
         if f:
@@ -304,7 +360,7 @@ def search(run: Run):
 def main():
     run = Run(
         PID,
-        ["RV.Props.C17"],
+        ["RV.Props.C17", "RV.Bridge.Detect"],
         ["RV/Model/Detectors.lean"],
         "Lean 4 induction over the history (state invariants of the sliding deques and the fading accumulator), "
         "differential correspondence with the real detector objects via their test= hook",
